@@ -6,6 +6,7 @@ import (
 	"sort"
 	"strings"
 	"sync"
+	"sync/atomic"
 	"testing"
 	"testing/synctest"
 	"time"
@@ -28,10 +29,11 @@ type C13Case struct {
 	Role     string   `json:"role"`
 	Buf      int      `json:"buf"`
 	N        int      `json:"n"`
-	Prefix   []string `json:"prefix"`    // logon, app-in, app-out, testreq-in, heartbeat-in, logout-in
-	Cause    string   `json:"cause"`     // see causes
-	Partial  int      `json:"partial"`   // bytes of an inbound message delivered right before the cause (0: none, -1: a whole message)
-	Parked   int      `json:"parked"`    // senders blocked on a stalled peer when the cause strikes
+	Prefix   []string `json:"prefix"`  // logon, app-in, app-out, testreq-in, heartbeat-in, logout-in
+	Cause    string   `json:"cause"`   // see causes
+	Partial  int      `json:"partial"` // bytes of an inbound message delivered right before the cause (0: none, -1: a whole message)
+	Parked   int      `json:"parked"`  // senders blocked on a stalled peer when the cause strikes
+	ErrStops bool     `json:"err_stops,omitempty"`
 	ParkKind string   `json:"park_kind"` // "send": an application Send; "resend": the inbound goroutine serving a ResendRequest (SendBatch)
 	StopAt   int      `json:"stop_at"`   // cause handler-stop with a burst: the application stops the handler from inside its own incoming handler, on the k-th message of the burst (the rest is still buffered in the reader)
 	Burst    int      `json:"burst"`     // further whole application messages that arrive in one piece right before the cause (buffered in the connection's reader when it strikes)
@@ -95,7 +97,12 @@ func genC13(t *rapid.T) *C13Case {
 	if c.Parked > 0 && hasLogon(c.Prefix) && c.Prefix[len(c.Prefix)-1] != "logout-in" && rapid.IntRange(0, 2).Draw(t, "parkResend") == 0 {
 		c.ParkKind = "resend"
 		c.Partial = 0 // the ResendRequest is the in-flight inbound message
+	} else if c.Parked > 0 && hasLogon(c.Prefix) && c.Prefix[len(c.Prefix)-1] != "logout-in" && rapid.IntRange(0, 2).Draw(t, "parkTestReq") == 0 {
+		c.ParkKind = "testreq"
+		c.Partial = 0 // the TestRequest is the in-flight inbound message; its answer is the send that parks
 	}
+	// the application has an error callback (Session.OnError) that gives up on the first error: it stops the session
+	c.ErrStops = rapid.IntRange(0, 2).Draw(t, "errStops") == 0
 	if c.Cause == "bad-inbound" && c.Partial > 0 {
 		c.Partial = -1 // the offending message must arrive as a message of its own
 	}
@@ -107,6 +114,20 @@ func genC13(t *rapid.T) *C13Case {
 	}
 	c.DeltaNs = rapid.SampledFrom([]int64{0, 0, 1, 1000, 1e6}).Draw(t, "delta")
 	return c
+}
+
+// onErrorStops registers the application's error callback: on the first error it stops the session.
+func onErrorStops(c *C13Case, s *session.Session) {
+	if !c.ErrStops {
+		return
+	}
+	var fired atomic.Bool
+	s.OnError(func(error) {
+		// (Stop itself may report a further error - its Logout cannot be sent - while it is still running)
+		if fired.CompareAndSwap(false, true) {
+			_ = s.Stop()
+		}
+	})
 }
 
 // stopInBurst lets the application stop its handler from inside its own incoming
@@ -180,6 +201,7 @@ func checkC13(c *C13Case, rec *evid.Rec) (vs []pbt.Violation) {
 					panic(err)
 				}
 				sess, hStop = s, h.Stop
+				onErrorStops(c, s)
 				stopInBurst(c, h, h.Stop)
 			})
 			conn = netsim.NewConn("c")
@@ -199,6 +221,7 @@ func checkC13(c *C13Case, rec *evid.Rec) (vs []pbt.Violation) {
 				panic(err)
 			}
 			sess, hStop = s, ir.H.Stop
+			onErrorStops(c, s)
 			stopInBurst(c, ir.H, ir.H.Stop)
 			synctest.Wait()
 		}
@@ -239,7 +262,14 @@ func checkC13(c *C13Case, rec *evid.Rec) (vs []pbt.Violation) {
 		// in-flight traffic: senders parked on a peer that stopped reading
 		var parkedWG sync.WaitGroup
 		parkedDone := make([]bool, c.Parked)
-		if c.Parked > 0 && c.ParkKind == "resend" {
+		if c.Parked > 0 && c.ParkKind == "testreq" {
+			// the peer stops reading and sends a TestRequest: the inbound goroutine parks while
+			// sending the Heartbeat; when the connection ends that send fails and is reported
+			conn.Stall(true)
+			conn.Feed((&rig.InMsg{Type: rig.TTestRequest, Seq: next(), Fields: []rig.Tok{rig.F(rig.TagTestReqID, "parked")}}).Bytes())
+			synctest.Wait()
+			parkedDone = nil
+		} else if c.Parked > 0 && c.ParkKind == "resend" {
 			// the peer stops reading and asks for a resend: the inbound goroutine
 			// parks inside SendBatch, holding the handler mutex
 			conn.Stall(true)
@@ -439,6 +469,9 @@ func checkC13(c *C13Case, rec *evid.Rec) (vs []pbt.Violation) {
 	if c.StopAt > 0 {
 		rec.Hist("handler-stopped-from-inside-its-own-handler")
 	}
+	if c.ErrStops {
+		rec.Hist("error-callback-stops-the-session")
+	}
 	if c.Parked > 0 {
 		rec.Hist("inflight:parked-" + c.ParkKind)
 	}
@@ -484,8 +517,8 @@ func TestC13(t *testing.T) {
 // x role x buffer size x cause x in-flight traffic.
 func enumC13() []*C13Case {
 	families := [][]string{
-		nil,                      // before logon
-		{"logon"},                // just logged on
+		nil,       // before logon
+		{"logon"}, // just logged on
 		{"logon", "app-in", "app-out"},
 		{"logon", "testreq-in", "app-out", "app-in", "heartbeat-in"},
 		{"logon", "app-out", "logout-in"}, // during logout
@@ -536,4 +569,114 @@ func TestC13Enum(t *testing.T) {
 	outerT = t
 	rec := evid.New("C13/enum")
 	pbt.Enumerate(t, "C13", rec, enumC13(), checkC13)
+}
+
+// ---- C13: a connection that completes its handshake while the acceptor is being closed ----
+//
+// Acceptor.Close() and a client's connect race in every deployment: the client
+// gets through the listener in the window between the cancellation and the
+// listener's own Close. The scripted listener makes the window certain (its
+// accept hook calls Acceptor.Close right before Accept returns the connection).
+// Whatever the library does with such a connection, the client must not be left
+// with an open socket that nobody serves: it sees the connection closed.
+
+type C13LateCase struct {
+	Buf     int   `json:"buf"`
+	Earlier int   `json:"earlier"` // connections accepted (and logged on) before
+	Speaks  bool  `json:"speaks"`  // the late client sends its Logon at once
+	CbNs    int64 `json:"cb_ns"`   // time the application's new-client callback takes
+}
+
+func genC13Late(t *rapid.T) *C13LateCase {
+	return &C13LateCase{Buf: rapid.SampledFrom([]int{0, 1, 10}).Draw(t, "buf"), Earlier: rapid.IntRange(0, 2).Draw(t, "earlier"),
+		Speaks: rapid.Bool().Draw(t, "speaks"), CbNs: rapid.SampledFrom([]int64{0, 0, 1e6, 50e6}).Draw(t, "cbNs")}
+}
+
+func checkC13Late(c *C13LateCase, rec *evid.Rec) (vs []pbt.Violation) {
+	done := pbt.Watch("C13", "TestC13Late", c)
+	defer done()
+	var lateClosed, returned bool
+	var earlierOpen int
+	leak, trouble := rig.Bubble(outerT, func() {
+		store := memory.NewStorage()
+		cfg := rig.Cfg{Role: "acceptor", HBMin: 1, HBMax: 60, HBInt: 30, Methods: []string{"0"}, Approve: "all", CloseTimeoutMs: 100, Buf: c.Buf,
+			Sender: "LIB", Target: "PEER", User: "alice", Pass: "secret"}
+		ar := rig.StartAcceptor(c.Buf, time.Minute, func(h simplefixgo.AcceptorHandler) {
+			if c.CbNs > 0 {
+				time.Sleep(time.Duration(c.CbNs))
+			}
+			if _, err := rig.AcceptorSession(cfg, h, store, store); err != nil {
+				panic(err)
+			}
+		})
+		logon := func(seq int) []byte {
+			return (&rig.InMsg{Type: rig.TLogon, Seq: fmt.Sprint(seq), Fields: []rig.Tok{rig.F(rig.TagEncryptMethod, "0"), rig.F(rig.TagHeartBtInt, "30"),
+				rig.F(rig.TagUsername, "alice"), rig.F(rig.TagPassword, "secret")}}).Bytes()
+		}
+		var earlier []*netsim.Conn
+		for i := 0; i < c.Earlier; i++ {
+			ec := netsim.NewConn(fmt.Sprint("early", i))
+			earlier = append(earlier, ec)
+			ar.L.Connect(ec)
+			synctest.Wait()
+			ec.Feed(logon(1))
+			synctest.Wait()
+		}
+		time.Sleep(100 * time.Millisecond)
+		late := netsim.NewConn("late")
+		ar.L.OnAccept = func(nc *netsim.Conn) {
+			if nc == late {
+				ar.A.Close() // the application shuts the acceptor down while this client's handshake completes
+			}
+		}
+		ar.L.Connect(late)
+		if c.Speaks {
+			late.Feed(logon(1))
+		}
+		synctest.Wait()
+		time.Sleep(rig.Settle(30))
+		synctest.Wait()
+		lateClosed, _ = late.IsClosed()
+		returned = ar.Returned()
+		for _, ec := range earlier {
+			if cl, _ := ec.IsClosed(); !cl {
+				earlierOpen++
+			}
+		}
+		// let everything go so that the bubble can end
+		late.PeerClose()
+		for _, ec := range earlier {
+			ec.PeerClose()
+		}
+		time.Sleep(rig.Settle(30))
+	})
+	if trouble != "" {
+		return []pbt.Violation{pbt.V("harness", "%s", trouble)}
+	}
+	desc := fmt.Sprintf("acceptor (buffer %d) with %d earlier connections; a client's connection is accepted at the instant Acceptor.Close is called (it sends its Logon at once: %v)", c.Buf, c.Earlier, c.Speaks)
+	if !returned {
+		vs = append(vs, pbt.V("late:serve-not-returned", "%s: ListenAndServe has not returned", desc))
+	}
+	if !lateClosed {
+		vs = append(vs, pbt.V("late:connection-left-open", "%s: that connection is still open after the settling time: the client waits forever on a socket nobody serves", desc))
+	}
+	if earlierOpen > 0 && len(vs) == 0 {
+		vs = append(vs, pbt.V("late:earlier-connection-left-open", "%s: %d of the earlier connections are still open after the acceptor was closed", desc, earlierOpen))
+	}
+	if leak != "" && len(vs) == 0 {
+		vs = append(vs, pbt.V("late:goroutines-left", "%s: goroutines remain blocked after every connection was closed by its peer:\n%s", desc, leak))
+	}
+	rec.Case(evid.FPs(fmt.Sprint(c.Buf, c.Earlier, c.Speaks, c.CbNs)), true)
+	rec.Hist("late-accept")
+	rec.Hist(fmt.Sprintf("late:earlier=%d", c.Earlier))
+	if rec.WantSample() {
+		rec.Sample(map[string]any{"engine": "connection accepted while the acceptor closes", "buffer": c.Buf, "earlier_connections": c.Earlier, "late_client_speaks": c.Speaks})
+	}
+	return vs
+}
+
+func TestC13Late(t *testing.T) {
+	outerT = t
+	rec := evid.New("C13/late")
+	pbt.Run(t, "C13", rec, genC13Late, checkC13Late)
 }
